@@ -125,6 +125,33 @@ Section Theorems.
     - now rewrite D.
   Qed.
 
+  (** a single (non-batch) request that expects an answer gets one object with its id *)
+  Theorem single_reply srvf srv dm e :
+    results_dumpable body (sv_jsonclass srv) ->
+    truthy e = true -> is_list e = false -> expects_answer e = true ->
+    exists o log, marshaled_dispatch srvf srv dm (PValue e) = Ok (ROne o, log)
+                  /\ reply_id o = Some (usable_id e) /\ wf_obj o = true.
+  Proof.
+    intros R Ht Hl He. unfold Dispatch.marshaled_dispatch, Dispatch.unmarshaled_dispatch. cbn [loads_m].
+    rewrite Ht. cbn [negb].
+    assert (A : exists o log, answer_entry srvf srv dm e = (Some o, log)).
+    { destruct (answer_entry srvf srv dm e) as [[o|] log] eqn:E; [eauto|].
+      pose proof (proj1 (answer_entry_none_iff body sigs srvf srv dm e)) as N.
+      rewrite E in N. specialize (N eq_refl). unfold expects_answer in He. rewrite N in He. discriminate. }
+    destruct A as (o & log & E).
+    assert (G : (let '(u, l) := (let '(o, l) := answer_entry srvf srv dm e in
+                                 (match o with Some x => UObj x | None => UNone end, l)) in
+                 match u with
+                 | UNone | UNoMulticall => Ok (REmpty, l)
+                 | UObj o => if dumpable o then Ok (ROne o, l) else Raise EType
+                 | UList os => if forallb dumpable os then Ok (RMany os, l) else Raise EType
+                 end) = Ok (ROne o, log)).
+    { rewrite E. now rewrite (answer_dumpable _ _ _ _ _ _ _ _ R E). }
+    exists o, log. split.
+    - destruct e; try exact G. discriminate.
+    - split; [eapply id_echo; eauto|eapply answer_wf; eauto].
+  Qed.
+
   (** ** C04 *)
 
   Lemma call_func_log_aux c p :
@@ -310,6 +337,21 @@ Section Theorems.
     destruct (if sv_jsonclass srv then convert v else Ok v).
     - eexists. split; [reflexivity|]. left. apply reply_code_resp.
     - eexists. split; [reflexivity|]. right. apply reply_code_err.
+  Qed.
+
+  (** the code of a Fault returned by the default dispatch is the code of the reply, with the
+      request's id, and the reply's log is the dispatch's log *)
+  Theorem fault_code_surfaces srvf srv e m s c msg log :
+    e = VDict m -> wellformed_entry e = true -> no_id e = false -> method_of e = Some s ->
+    dispatch (sv_reg srv) s (params_of e) = (DFault c msg, log) ->
+    exists o, answer_entry srvf srv None e = (Some o, log)
+              /\ reply_code o = Some (VInt c) /\ reply_message o = Some (VStr msg)
+              /\ reply_id o = Some (usable_id e).
+  Proof.
+    intros He Hw Hno Hm Hd.
+    pose proof (call_answer srvf srv e m s He Hw Hno Hm (DFault c msg) log Hd) as A. cbn in A.
+    eexists. split; [exact A|].
+    split; [apply reply_code_err|split; [apply reply_message_err|apply reply_id_err]].
   Qed.
 
   Theorem unknown_method_no_instance reg s p :
